@@ -6554,6 +6554,11 @@ static int32_t ocspParseBasicResponse(psPool_t *pool, uint32_t len,
             byKey                [2] KeyHash }
      */
 
+    if ((end - p) < 1)
+    {
+        psTraceCrypto("ResponderID parse error in ResponseData\n");
+        return PS_PARSE_FAIL;
+    }
     if (*p == (ASN_CONTEXT_SPECIFIC | ASN_CONSTRUCTED | 1))
     {
         const unsigned char *p2;
@@ -6664,7 +6669,7 @@ static int32_t ocspParseBasicResponse(psPool_t *pool, uint32_t len,
         }
     }
     /* responseExtensions   [1] EXPLICIT Extensions OPTIONAL } */
-    if (*p == (ASN_CONTEXT_SPECIFIC | ASN_CONSTRUCTED | 1))
+    if (p < end && *p == (ASN_CONTEXT_SPECIFIC | ASN_CONSTRUCTED | 1))
     {
         if (parse_nonce_ext(p, end - p, &res->nonce) != PS_SUCCESS)
         {
@@ -6770,7 +6775,7 @@ static int32_t ocspParseBasicResponse(psPool_t *pool, uint32_t len,
         return PS_UNSUPPORTED_FAIL;
     }
 
-    if (*p++ != ASN_BIT_STRING)
+    if ((end - p) < 1 || *p++ != ASN_BIT_STRING)
     {
         psTraceCrypto("Error parsing signature in ResponseData\n");
         return PS_PARSE_FAIL;
